@@ -102,6 +102,18 @@ class Ctx:
                 self.patch_ok = probe.check("p") == lim["cellmax"]
             except Exception:  # noqa
                 self.patch_ok = False
+        if self.patched and self.patch_ok:
+            # the patched constants may mean something else to another implementation (e.g. a size limit): the tiny-limit graph is replayed
+            # only if an ordinary little history works under them on this geometry; otherwise it is skipped (the real-limit traces judge C16)
+            try:
+                probe = CountMinSketch(width=params["W"], depth=params["D"], hash_function=lambda k, d=1: list(range(d)))
+                probe.add("p", 1)
+                ok = probe.check("p") == 1 and probe.elements_added == 1
+                ok = ok and CountMinSketch.frombytes(bytes(probe), hash_function=lambda k, d=1: list(range(d))).check("p") == 1
+                probe.remove("p", 1)
+                self.patch_ok = ok and probe.check("p") == 0
+            except Exception:  # noqa
+                self.patch_ok = False
         self.kind, self.mode = params["kind"], params["mode"]
         self.cls = {"cms": {"min": CountMinSketch, "mean": CountMeanSketch, "meanmin": CountMeanMinSketch}[self.mode],
                     "hh": HeavyHitters, "st": StreamThreshold}[self.kind]
